@@ -594,6 +594,8 @@ func runC18(w *World, r *Report) {
 
 	shareRule(w, r, "C18.tool-frames-keep-their-call", "the per-call converter of the tools node's stream form writes no variable captured from the call (the call id heads EVERY frame): the return-directly node filters the tools stream frame by frame on the id", 5, "C09", "C09.capture-write")
 	shareRule(w, r, "C18.model-stream-closed-once-per-copy", "a copy of the model's stream counts as closed once however often Close is called on it: the source is closed when every copy is closed, not when the checker's copy was closed twice (the tools node / END would read a truncated stream under Stream only)", 1, "C08", "C08.copy-cell")
+	shareRule(w, r, "C18.every-call-is-executed", "every tool call of a message is executed, repeated ones included: task i is tool call i and result i is task i's own outcome under Invoke as under Stream (a de-duplication by name and arguments answers a stateful tool's second call with the first one's result, in Generate only)", 1, "C17", "C17.index-preserved")
+	shareRule(w, r, "C18.run-time-limit-replaces", "a run-time step limit replaces the compiled one whichever is larger: an agent built with MaxStep 3 and run with WithRuntimeMaxSteps(10) gets ten steps", 1, "C01", "C01.runtime-limit-replaces")
 
 	// ---- the default stream tool-call checker: an empty leading chunk decides nothing
 	r.Rule("C18.default-checker", "the default stream checkers answer 'no tool call' only at end of stream or on a chunk with content; 'tool call' only on a chunk with tool calls", 4)
